@@ -1,5 +1,241 @@
+import Casket.Model.Replacer
+import Casket.Spec.Replacer
+import Casket.Model.Log
+import Casket.Spec.Log
 import Driver.Proto
-/- Streams of C20 (stub: not built yet). -/
+/-
+Streams of C20.
+
+  c20.replace  fmt empty RAW remote REWRITE sets tls reqid mitm recorder resphdr osenv
+               reqhdr cookies query method host proto hostsplit remotesplit
+               origpath origrawquery origfragment origuri curpath cururi
+     RAW / REWRITE are only read by the Go side (it builds the real *http.Request from them and
+     checks that the "view" fields are what net/http derives from them).
+     lists: entries separated by ',', parts of an entry by ':', every part hex.
+     out = hex of the replaced string | PANIC
+-/
 namespace Driver.C20
-def streams : List Driver.Stream := []
+open Casket.Replacer
+
+def hexParts (s : String) : Option (List (List UInt8)) := (s.splitOn ":").mapM Driver.unhex
+
+def entries (s : String) : Option (List (List (List UInt8))) :=
+  if s = "" then some [] else (s.splitOn ",").mapM hexParts
+
+def pairs (s : String) : Option (List (Bytes × Bytes)) := do
+  let es ← entries s
+  es.mapM fun e => match e with
+    | [k, v] => some (k, v)
+    | _ => none
+
+def multi (s : String) : Option (List (Bytes × List Bytes)) := do
+  let es ← entries s
+  es.mapM fun e => match e with
+    | k :: vs => some (k, vs)
+    | _ => none
+
+def optPair (s : String) : Option (Option (Bytes × Bytes)) :=
+  if s = "-" then some none else
+  match hexParts s with
+  | some [a, b] => some (some (a, b))
+  | _ => none
+
+def optHex (s : String) : Option (Option Bytes) :=
+  if s = "-" then some none else (Driver.unhex s).map some
+
+def optNatPair (s : String) : Option (Option (Nat × Nat)) :=
+  if s = "-" then some none else
+  match s.splitOn ":" with
+  | [a, b] => do pure (some (← a.toNat?, ← b.toNat?))
+  | _ => none
+
+structure ReplaceCase where
+  fmt : Bytes
+  env : Env
+
+def parseReplace : List String → Option ReplaceCase
+  | [fmt, empty, _raw, remote, _rewrite, sets, tls, reqid, mitm, recorder, resphdr, osenv,
+     reqhdr, cookies, query, method, host, proto, hostsplit, remotesplit,
+     opath, orawq, ofrag, ouri, cpath, curi] => do
+    let sets ← pairs sets
+    let rec_ ← optNatPair recorder
+    let rh ← multi resphdr
+    let mitm ← (if mitm = "-" then some none else if mitm = "1" then some (some true)
+                else if mitm = "0" then some (some false) else none)
+    let env : Env := {
+      empty := ← Driver.unhex empty
+      -- Set() stores "{"+key+"}"; a later Set overwrites, so the last one must be found first
+      custom := (sets.map fun p => (lbr :: (p.1 ++ [rbr]), p.2)).reverse
+      reqHdr := ← multi reqhdr
+      respHdr := if rec_.isSome then some rh else none
+      cookies := ← pairs cookies
+      query := ← pairs query
+      osEnv := ← pairs osenv
+      method := ← Driver.unhex method
+      host := ← Driver.unhex host
+      proto := ← Driver.unhex proto
+      remoteAddr := ← Driver.unhex remote
+      hostSplit := ← optPair hostsplit
+      remoteSplit := ← optPair remotesplit
+      tls := tls = "1"
+      peerCert := false
+      origPath := ← Driver.unhex opath
+      origRawQuery := ← Driver.unhex orawq
+      origFragment := ← Driver.unhex ofrag
+      origURI := ← Driver.unhex ouri
+      curPath := ← Driver.unhex cpath
+      curURI := ← Driver.unhex curi
+      requestID := (← optHex reqid).getD []
+      mitm := mitm
+      recorder := rec_
+    }
+    pure { fmt := ← Driver.unhex fmt, env := env }
+  | _ => none
+
+def replaceModel (f : List String) : String :=
+  match parseReplace f with
+  | none => "bad-case"
+  | some c =>
+    match replace c.env c.fmt with
+    | .ok out => Driver.hex out
+    | .error .panic => "PANIC"
+    | .error .fuel => "FUEL"
+
+def replaceJudge (f : List String) (out : String) : String :=
+  match parseReplace f with
+  | none => "bad:unparsable:case"
+  | some c =>
+    if out = "HANG" then "bad:non-terminating:Replace did not return within 5 s"
+    else if out = "PANIC" then Casket.ReplacerSpec.verdict c.env c.fmt .panic
+    else match Driver.unhex out with
+      | none => "bad:unparsable:" ++ out
+      | some b => Casket.ReplacerSpec.verdict c.env c.fmt (.out b)
+
+/-!
+  c20.log  directives conc requests errlens wrap writer   (wrap: - | errors | rewrite; writer: plain | rf | h1, Go side only)
+     ops   h<code> | w<n> | c<n> io.Copy | n<n> io.CopyN | s<n> ServeContent | f Flush | p<hex> r.URL.Path = … | u<hex> r.URL = new URL
+     directives  ','-separated  D<hex scope>[:<hex except>]*        (one `log` directive each, in file order)
+     requests    ','-separated  <hex path>:<ops>:<ret>:<0|1 panics>  ops '.'-separated h<code> | w<n>
+     errlens     ','-separated  <status>=<length of the default error body>
+     out = per directive (';') its lines ('|') as id.status.size, then '#', then per request status.size
+-/
+/-- `httpserver.Path.Matches` restricted to the clean paths the generator uses -/
+def matchPath (p base : List UInt8) : Bool := Casket.Log.cleanPathMatches p base
+
+open Casket.Log in
+def parseDirective (s : String) : Option Directive :=
+  if !s.startsWith "D" then none else
+  match hexParts (s.drop 1).toString with
+  | some (scope :: ex) => some { scope := scope, excepts := ex }
+  | _ => none
+
+open Casket.Log in
+/-- one scripted call of the handler, as writer operations of the model.  The property is about
+what the client receives, so a body sent with io.Copy / io.CopyN (`c`, `n`) IS a write of that many
+bytes, `http.ServeContent` (`s`) is WriteHeader(200) + a write of the file size, and Flush (`f`)
+sends the header without body bytes, i.e. a write of 0 bytes. -/
+def parseOp (s : String) : Option (List Op) :=
+  let arg := (s.drop 1).toString.toNat?
+  if s.startsWith "h" then arg.map fun n => [Op.header n]
+  else if s.startsWith "w" then arg.map fun n => [Op.write n]
+  -- io.Copy of an empty source never calls Write, so it does not even send the header
+  else if s.startsWith "c" || s.startsWith "n" then arg.map fun n => if n = 0 then [] else [Op.write n]
+  else if s.startsWith "s" then arg.map fun n => [Op.header 200, Op.write n]
+  else if s = "f" then some [Op.write 0]
+  -- p<hex path>: r.URL.Path = …   u<hex path>: r.URL = &url.URL{Path: …}.  No writer operation;
+  -- the new path is kept in the outcome (see parseRequest) and the model does not read it.
+  else if s.startsWith "p" || s.startsWith "u" then (Driver.unhex (s.drop 1).toString).map fun _ => []
+  else none
+
+open Casket.Log in
+/-- the path the scripted handler leaves in the request (last `p`/`u` op) -/
+def lastPath (ops : List String) : Option (List UInt8) :=
+  ops.foldl (fun acc s =>
+    if s.startsWith "p" || s.startsWith "u" then (Driver.unhex (s.drop 1).toString).orElse fun _ => acc else acc) none
+
+open Casket.Log in
+def parseRequest (s : String) : Option (Bytes × Outcome) :=
+  match s.splitOn ":" with
+  | [p, ops, ret, pan] => do
+    let opl := if ops = "" then [] else ops.splitOn "."
+    let ops ← (opl.mapM parseOp).map List.flatten
+    pure (← Driver.unhex p, { ops := ops, ret := ← ret.toNat?, panics := pan = "1", newPath := lastPath opl })
+  | _ => none
+
+def parseErrLens (s : String) : Option (List (Nat × Nat)) :=
+  if s = "" then some [] else (s.splitOn ",").mapM fun e =>
+    match e.splitOn "=" with
+    | [a, b] => do pure (← a.toNat?, ← b.toNat?)
+    | _ => none
+
+structure LogCase where
+  ds : List Casket.Log.Directive
+  reqs : List (Bytes × Casket.Log.Outcome)
+  errLen : Nat → Nat
+
+def parseLog : List String → Option LogCase
+  | [ds, _conc, reqs, errlens, wrap, _writer] => do
+    let ds ← (if ds = "" then some [] else (ds.splitOn ",").mapM parseDirective)
+    let reqs ← (if reqs = "" then some [] else (reqs.splitOn ",").mapM parseRequest)
+    let el ← parseErrLens errlens
+    let errLen := fun s => ((el.find? fun p => p.1 == s).map (·.2)).getD 0
+    -- an `errors` directive between log and the handler changes what log's Next does
+    -- wrap = rewrite (the real rewrite directive changes r.URL.Path in place) needs nothing here:
+    -- the model's decision does not depend on the path the inner handlers leave behind
+    let reqs := if wrap = "errors" then reqs.map fun (p, o) => (p, Casket.Log.withErrors errLen o) else reqs
+    pure { ds := ds, reqs := reqs, errLen := errLen }
+  | _ => none
+
+open Casket.Log in
+def showLine (id : Nat) (l : Line) : String := s!"{id}.{l.status}.{l.size}"
+
+open Casket.Log in
+def logModel (f : List String) : String :=
+  match parseLog f with
+  | none => "bad-case"
+  | some c =>
+    let rules := logParse c.ds
+    let rs := c.reqs.map fun (p, o) => serverServe matchPath c.errLen rules p o
+    let ids := List.range rs.length
+    let perEntry := (List.range c.ds.length).map fun e =>
+      "|".intercalate ((ids.zip rs).flatMap fun (id, r) =>
+        (r.lines.filter fun (l : Line) => l.entry == e).map (showLine id))
+    let clients := rs.map fun r => s!"{r.client.status}.{r.client.size}"
+    ";".intercalate perEntry ++ "#" ++ ",".intercalate clients
+
+def parseObsLine (s : String) : Option (Nat × Nat × Nat) :=
+  match s.splitOn "." with
+  | [a, b, c] => do pure (← a.toNat?, ← b.toNat?, ← c.toNat?)
+  | _ => none
+
+open Casket.Log in
+def logJudge (f : List String) (out : String) : String :=
+  match parseLog f, out.splitOn "#" with
+  | some c, [ls, cl] =>
+    let entries := if c.ds.isEmpty then [] else ls.splitOn ";"
+    if entries.length ≠ c.ds.length then "bad:unparsable:" ++ out else
+    -- all observed lines as (request id, Line)
+    let obs : Option (List (Nat × Line)) :=
+      ((List.range entries.length).zip entries).foldlM (init := []) fun acc (e, s) => do
+        let ls ← (if s = "" then some [] else (s.splitOn "|").mapM parseObsLine)
+        pure (acc ++ ls.map fun (id, st, sz) => (id, { entry := e, status := st, size := sz }))
+    let clients : Option (List (Nat × Nat)) :=
+      if cl = "" then some [] else (cl.splitOn ",").mapM fun s =>
+        match s.splitOn "." with
+        | [a, b] => do pure (← a.toNat?, ← b.toNat?)
+        | _ => none
+    match obs, clients with
+    | some obs, some clients =>
+      if clients.length ≠ c.reqs.length then "bad:unparsable:" ++ out else
+      if obs.any fun (id, _) => id ≥ c.reqs.length then "bad:unwanted-line:line for a request that was never made" else
+      (Casket.LogSpec.firstBad <| ((List.range c.reqs.length).zip (c.reqs.zip clients)).map fun (id, ((p, o), (cs, cz))) =>
+        Casket.LogSpec.verdictClass matchPath c.ds p o.panics ((obs.filter fun x => x.1 == id).map (·.2)) cs cz).text
+    | _, _ => "bad:unparsable:" ++ out
+  | _, _ => "bad:unparsable:" ++ out
+
+def streams : List Driver.Stream := [
+  { name := "c20.replace", model := replaceModel, judge := replaceJudge },
+  { name := "c20.log", model := logModel, judge := logJudge }
+]
+
 end Driver.C20
